@@ -431,9 +431,8 @@ func (rn *runner) run(h Hist) {
 				continue // this group's own append is in flight: C21's window
 			}
 			mg := after.Groups[g]
-			if strings.HasPrefix(last, "rcompact:") && gid(last) == g && !done {
-				mg = before.Groups[g] // truncation not yet acknowledged: the older bound applies
-			}
+			// a MaybeCompact in flight was requested by the group itself: entries up to the new
+			// truncation index are no longer needed whether or not the call had returned
 			if mg.Last == 0 {
 				continue
 			}
